@@ -640,6 +640,25 @@ class Library:
                 base = SliceRef(b_, 0, len(b_), True)
             if type(base) is SliceRef:
                 items = base.items()
+                if items and all(type(x) is int for x in items) and any(x >= 0x80 for x in items):
+                    # concrete text held as code points: translate the byte offsets (they must be char boundaries)
+                    idx = args[1]
+                    offs = [0]
+                    for x in items:
+                        offs.append(offs[-1] + len(chr(x).encode('utf-8')))
+                    total = offs[-1]
+                    if type(idx) is L and idx.tag in ('Range', 'RangeTo', 'RangeFrom'):
+                        s_, e_ = (idx[0], idx[1]) if idx.tag == 'Range' else ((0, idx[0]) if idx.tag == 'RangeTo' else (idx[0], total))
+                        if type(s_) is int and type(e_) is int:
+                            if e_ > total:
+                                return I.panic(fr, 'byte index %d is out of bounds' % e_)
+                            if s_ > e_:
+                                return I.panic(fr, 'begin <= end (%d <= %d)' % (s_, e_))
+                            if s_ not in offs or e_ not in offs:
+                                return I.panic(fr, 'byte index is not a char boundary')
+                            a_, b_ = offs.index(s_), offs.index(e_)
+                            return SliceRef(base.c, base.start + a_, b_ - a_, True)
+                    raise Unsupported('slicing of concrete non-ASCII text with this index form')
                 if any(type(x) is int and x >= 0x80 for x in items) or any(type(x) not in (int, Term) for x in items):
                     raise Unsupported('byte-offset slicing of a string with concrete non-ASCII or conditional pieces')
                 if any(self.may_be_non_ascii(x) for x in items):
@@ -823,7 +842,19 @@ class Library:
             want = 1 if name.startswith('Option') else 0
             if type(o[0]) is not int:
                 if o.tag != 'symenum':
-                    raise Unsupported('map of Option/Result with symbolic discriminant and shared payload')
+                    # shared-payload form [d, p]: the closure runs under "is `want`"; the other variant keeps p
+                    if len(o) < 2:
+                        return o
+                    I.pc.append(T.eq(64, o[0], want))
+                    try:
+                        r = self.apply_ctor_or_fn(fr, f, [o[1]])
+                    finally:
+                        I.pc.pop()
+                    if r is DEAD:
+                        raise Unsupported('closure diverges under map of a symbolic Option/Result')
+                    if want == 1:
+                        return I.mk([o[0], r], 'enum')
+                    return I.mk([o[0], {0: I.mk([r]), 1: I.mk([o[1]])}], 'symenum')
                 # case split on the discriminant: the closure runs under the path condition "is `want`"
                 vm = dict(o[1])
                 if want in vm:
@@ -992,6 +1023,9 @@ class Library:
         libmore.register_cells(self)
         libmore.register_ints(self)
         libmore.register_cmp(self)
+        libmore.register_misc(self)
+        libmore.register_result(self)
+        libmore.register_last(self)
 
     def apply_ctor_or_fn(self, fr, f, args):
         I = self.I
